@@ -99,6 +99,8 @@ def hand(name):
             FA("<var>", "v0", EX("<assgn>", "a", SMT(A("=", V("var"), V("v0"))), mexpr=M(MNT("<var>", "var"), MCH(" := "), MNT("<rhs>")))))
         add("free-nt-vs-mexpr-name", 'forall <assgn>="<var> := {<digit> digit}": (digit = "1" or <digit> = "0")',
             FA("<digit>", "d0", FA("<assgn>", "a", OR(lit("digit", "1"), lit("d0", "0")), mexpr=M(MNT("<var>"), MCH(" := "), MNT("<digit>", "digit")))))
+        add("const-decl", 'const start: <start>; forall <var> v in start: v = "a"', FA("<var>", "v", lit("v", "a")))
+        add("const-decl", 'const c: <start>; exists <digit> d in c: (d = "1" or inside(d, c))', EX("<digit>", "d", OR(lit("d", "1"), PRED("inside", "d", "start"))))
         add("negative-literal", 'forall <var> v: str.len(v) > -1', FA("<var>", "v", SMT(A(">", A("str.len", V("v")), I(-1)))))
         add("prefix-nested", 'forall <assgn> a: str.len(a) + 1 = 7', FA("<assgn>", "a", SMT(A("=", A("+", A("str.len", V("a")), I(1)), I(7)))))
         add("prefix-nested", 'forall <rhs> r: str.to.int(str.from_int(str.len(r))) = 1', FA("<rhs>", "r", SMT(A("=", A("str.to.int", A("str.from_int", A("str.len", V("r")))), I(1)))))
